@@ -9,17 +9,24 @@ import (
 	"strings"
 	"sync"
 
+	"crypto/elliptic"
 	"github.com/tink-crypto/tink-go/v2/aead"
 	aeadsubtle "github.com/tink-crypto/tink-go/v2/aead/subtle"
 	"github.com/tink-crypto/tink-go/v2/core/registry"
 	"github.com/tink-crypto/tink-go/v2/daead"
 	daeadsubtle "github.com/tink-crypto/tink-go/v2/daead/subtle"
+
+	"github.com/tink-crypto/tink-go/v2/aead/aesgcm"
 	"github.com/tink-crypto/tink-go/v2/hybrid"
+	"github.com/tink-crypto/tink-go/v2/hybrid/ecies"
 	hybridsubtle "github.com/tink-crypto/tink-go/v2/hybrid/subtle"
 	"github.com/tink-crypto/tink-go/v2/insecurecleartextkeyset"
 	"github.com/tink-crypto/tink-go/v2/insecuresecretdataaccess"
 	"github.com/tink-crypto/tink-go/v2/internal/protoserialization"
 	"github.com/tink-crypto/tink-go/v2/jwt"
+	"github.com/tink-crypto/tink-go/v2/jwt/jwtecdsa"
+	"github.com/tink-crypto/tink-go/v2/jwt/jwtrsassapkcs1"
+	"github.com/tink-crypto/tink-go/v2/jwt/jwtrsassapss"
 	"github.com/tink-crypto/tink-go/v2/key"
 	"github.com/tink-crypto/tink-go/v2/keyderivation"
 	"github.com/tink-crypto/tink-go/v2/keyset"
@@ -537,6 +544,14 @@ type ctor struct {
 	sizes []int
 }
 
+// ctorPrep: optional per-constructor hook that makes the random inputs valid
+// before the guards are armed.
+var ctorPrep = map[string]func(in [][]byte){
+	"jwt/jwtecdsa.NewPublicKey(opts.PublicPoint)":   func(in [][]byte) { copy(in[0], p256Point()) },
+	"jwt/jwtrsassapkcs1.NewPublicKey(opts.Modulus)": func(in [][]byte) { in[0][0] |= 0x80; in[0][len(in[0])-1] |= 1 },
+	"jwt/jwtrsassapss.NewPublicKey(opts.Modulus)":   func(in [][]byte) { in[0][0] |= 0x80; in[0][len(in[0])-1] |= 1 },
+}
+
 var fixedMsg = []byte("c19 fixed message for fingerprints")
 
 func ctors() []ctor {
@@ -730,6 +745,47 @@ func ctors() []ctor {
 				return out
 			}, nil
 		}, []int{9}},
+		{"hybrid/ecies.NewParameters(opts.Salt)", func(in [][]byte) (func() []byte, error) {
+			p, err := ecies.NewParameters(ecies.ParametersOpts{CurveType: ecies.NISTP256, HashType: ecies.SHA256, NISTCurvePointFormat: ecies.UncompressedPointFormat,
+				DEMParameters: mustAESGCMParams(), Salt: in[0], Variant: ecies.VariantTink})
+			if err != nil {
+				return nil, err
+			}
+			return func() []byte { return p.Salt() }, nil
+		}, []int{10}},
+		{"jwt/jwtecdsa.NewPublicKey(opts.PublicPoint)", func(in [][]byte) (func() []byte, error) {
+			ps, err := jwtecdsa.NewParameters(jwtecdsa.IgnoredKID, jwtecdsa.ES256)
+			if err != nil {
+				return nil, err
+			}
+			k, err := jwtecdsa.NewPublicKey(jwtecdsa.PublicKeyOpts{PublicPoint: in[0], Parameters: ps})
+			if err != nil {
+				return nil, err
+			}
+			return func() []byte { return k.PublicPoint() }, nil
+		}, []int{65}},
+		{"jwt/jwtrsassapkcs1.NewPublicKey(opts.Modulus)", func(in [][]byte) (func() []byte, error) {
+			ps, err := jwtrsassapkcs1.NewParameters(jwtrsassapkcs1.ParametersOpts{ModulusSizeInBits: 2048, PublicExponent: 65537, Algorithm: jwtrsassapkcs1.RS256, KidStrategy: jwtrsassapkcs1.IgnoredKID})
+			if err != nil {
+				return nil, err
+			}
+			k, err := jwtrsassapkcs1.NewPublicKey(jwtrsassapkcs1.PublicKeyOpts{Modulus: in[0], Parameters: ps})
+			if err != nil {
+				return nil, err
+			}
+			return func() []byte { return k.Modulus() }, nil
+		}, []int{256}},
+		{"jwt/jwtrsassapss.NewPublicKey(opts.Modulus)", func(in [][]byte) (func() []byte, error) {
+			ps, err := jwtrsassapss.NewParameters(jwtrsassapss.ParametersOpts{ModulusSizeInBits: 2048, PublicExponent: 65537, Algorithm: jwtrsassapss.PS256, KidStrategy: jwtrsassapss.IgnoredKID})
+			if err != nil {
+				return nil, err
+			}
+			k, err := jwtrsassapss.NewPublicKey(jwtrsassapss.PublicKeyOpts{Modulus: in[0], Parameters: ps})
+			if err != nil {
+				return nil, err
+			}
+			return func() []byte { return k.Modulus() }, nil
+		}, []int{256}},
 		{"secretdata.NewBytesFromData", func(in [][]byte) (func() []byte, error) {
 			b := secretdata.NewBytesFromData(in[0], insecuresecretdataaccess.Token{})
 			return func() []byte { return b.Data(insecuresecretdataaccess.Token{}) }, nil
@@ -749,6 +805,12 @@ func opCtor(name string, r *hx.Rng) string {
 			g := guarded(fmt.Sprintf("%s argument %d", c.name, i), r.Bytes(n))
 			gs = append(gs, g)
 			in = append(in, g.s)
+		}
+		if prep := ctorPrep[c.name]; prep != nil {
+			prep(in)
+			for _, g := range gs {
+				g.orig = bytes.Clone(g.buf)
+			}
 		}
 		fp, err := c.build(in)
 		if err != nil {
@@ -1085,6 +1147,19 @@ func opDerive(r *hx.Rng) string {
 		}
 	})
 	return v.result()
+}
+
+func mustAESGCMParams() *aesgcm.Parameters {
+	p, err := aesgcm.NewParameters(aesgcm.ParametersOpts{KeySizeInBytes: 16, IVSizeInBytes: 12, TagSizeInBytes: 16, Variant: aesgcm.VariantNoPrefix})
+	if err != nil {
+		panic(err)
+	}
+	return p
+}
+
+// p256Point returns a fixed valid uncompressed P-256 point (the generator).
+func p256Point() []byte {
+	return elliptic.Marshal(elliptic.P256(), elliptic.P256().Params().Gx, elliptic.P256().Params().Gy)
 }
 
 // c19Dem is a DEM helper for the ECIES subtle constructors (AES-128-GCM).
